@@ -3,7 +3,7 @@
 From Coq Require Import ExtrOcamlBasic ExtrOcamlZBigInt.
 From GoIpa Require Import Model.Parallel Model.Bytes Model.Zq Model.Sha256 Model.Alg
   Model.Transcript Model.Edwards Model.FpSqrt Model.Banderwagon Model.Codec Model.Bary
-  Model.IPA Model.Multiproof Model.Serde Model.Pippenger Model.Mont Model.Concrete.
+  Model.IPA Model.Multiproof Model.Serde Model.Pippenger Model.Mont Model.Precomp Model.Concrete.
 
 Extraction "model.ml"
   execute_ranges
@@ -23,4 +23,5 @@ Extraction "model.ml"
   reduce_generic butterfly_generic i_add i_sub i_neg i_double i_mul i_from_mont i_to_mont i_inverse i_div
   i_exp i_legendre i_sqrt i_mul_by i_cmp i_lex_largest c_batch_invert_mont
   partition_scalars c_msm_inner best_c split_loop nb_chunks
+  c_pc_table c_pc_scalar_mul pc_digits
   read_point read_scalar mp_read ipa_read mp_write_chunks ipa_write_chunks write_all mkR.
